@@ -30,6 +30,7 @@ from fvmon import gen
 from fvmon.observe import WF, wf_kind, unbox, spec_of
 
 SPEC = {
+    "anchors": ["fibertree.core.fiber:Fiber.fromUncompressed", "fibertree.core.fiber:Fiber._makeFiber", "fibertree.core.fiber:Fiber.uncompress", "fibertree.core.fiber:Fiber._fillempty", "fibertree.core.fiber:Fiber.parse", "fibertree.core.fiber:Fiber.dump", "fibertree.core.fiber:Fiber.dict2fiber", "fibertree.core.fiber:Fiber.fiber2dict", "fibertree.core.fiber:Fiber.fromRandom", "fibertree.core.fiber:Fiber.fromYAMLfile", "fibertree.core.tensor:Tensor.fromUncompressed", "fibertree.core.tensor:Tensor._calc_shape", "fibertree.core.tensor:Tensor.parse", "fibertree.core.tensor:Tensor.dump", "fibertree.core.tensor:Tensor.fromYAMLfile", "fibertree.core.tensor:Tensor.fromRandom", "fibertree.core.payload:Payload.payload2dict"],
     "rule": ("cases = (i) every rectangular nest over {default, value} for every dimension list of depth 1-4, "
              "extents 1-4 and at most 6 (quick) / 10 (thorough) entries, under defaults 0 / 7 / 0.5 / -1, "
              "built as free fiber, as tensor and as tensor with explicit shape, then uncompressed with and "
